@@ -156,10 +156,11 @@ def _group_integrands_by_quadrature_rule(
     """
     #
     grouped_integrands: dict[basix.CellType, dict[QuadratureRule, list[Expr]]] = {}
-    # NOTE: this variable changes throughout the loop
-    cell_type = basix_cell_from_string(ufl_cell.cellname)
     use_sum_factorization = sum_factorization and integral_type == "cell"
     for integral in integrals:
+        # NOTE: this variable changes below (sub-entity for the vertex scheme,
+        # loop over the rules), so it is reset for every integral
+        cell_type = basix_cell_from_string(ufl_cell.cellname)
         md = integral.metadata() or {}
         scheme = md["quadrature_rule"]
         tensor_factors = None
